@@ -1,0 +1,364 @@
+//go:build verif
+
+package handler
+
+import (
+	"crypto/sha256"
+	"encoding/base64"
+	"encoding/json"
+	"fmt"
+	"io"
+	"net/http"
+	"net/http/httptest"
+	"net/url"
+	"os"
+	"strconv"
+	"strings"
+	"sync"
+	"testing"
+	"time"
+
+	"github.com/gotid/god/api/httpx"
+	"github.com/gotid/god/internal/verifc04"
+	"github.com/gotid/god/internal/verifdrv"
+	"github.com/gotid/god/lib/codec"
+	"github.com/gotid/god/lib/timex"
+)
+
+// ---------------------------------------------------------------- JWT gate
+
+type verifJwtReq struct {
+	Tok     int    `json:"tok"`
+	Scheme  string `json:"scheme"`
+	Advance int64  `json:"advance"`
+}
+
+type verifJwtCase struct {
+	Secret   string               `json:"secret"`
+	Prev     string               `json:"prev"`
+	Secrets  []string             `json:"secrets"`
+	Callback string               `json:"callback"` // none | observe | status
+	Probe    []string             `json:"probe"`    // context keys the inner handler looks up
+	Tokens   []verifc04.TokenSpec `json:"tokens"`
+	Reqs     []verifJwtReq        `json:"reqs"`
+}
+
+func verifJwt(raw json.RawMessage) any {
+	var c verifJwtCase
+	if err := json.Unmarshal(raw, &c); err != nil {
+		return map[string]any{"error": err.Error()}
+	}
+	timex.VerifSetNow(time.Hour)
+	defer timex.VerifClockOff()
+	wall := time.Now()
+	texts := make([]string, len(c.Tokens))
+	for i, ts := range c.Tokens {
+		texts[i] = verifc04.Mint(ts, wall)
+	}
+	cbCalled := false
+	cbHasErr := false
+	opts := []AuthorizeOption{}
+	if c.Prev != "" {
+		opts = append(opts, WithPrevSecret(c.Prev))
+	}
+	switch c.Callback {
+	case "observe":
+		opts = append(opts, WithUnauthorizedCallback(func(w http.ResponseWriter, r *http.Request, err error) {
+			cbCalled, cbHasErr = true, err != nil
+		}))
+	case "status":
+		opts = append(opts, WithUnauthorizedCallback(func(w http.ResponseWriter, r *http.Request, err error) {
+			cbCalled, cbHasErr = true, err != nil
+			w.WriteHeader(http.StatusTeapot)
+		}))
+	}
+	ran := false
+	ctxSeen := map[string]string{}
+	mw := Authorize(c.Secret, opts...)(http.HandlerFunc(func(w http.ResponseWriter, r *http.Request) {
+		ran = true
+		for _, k := range c.Probe {
+			if v := r.Context().Value(k); v != nil {
+				ctxSeen[k] = verifc04.Canon(v)
+			}
+		}
+		w.WriteHeader(http.StatusOK)
+	}))
+	type row struct {
+		Header int               `json:"header"`
+		Status int               `json:"status"`
+		Ran    bool              `json:"ran"`
+		Ctx    map[string]string `json:"ctx"`
+		Cb     bool              `json:"cb"`
+		CbErr  bool              `json:"cberr"`
+	}
+	headers := []string{}
+	hidx := map[string]int{}
+	rows := []row{}
+	for _, rq := range c.Reqs {
+		timex.VerifAdvance(time.Duration(rq.Advance) * time.Second)
+		h := ""
+		if rq.Tok >= 0 {
+			h = rq.Scheme + texts[rq.Tok]
+		}
+		if _, ok := hidx[h]; !ok {
+			hidx[h] = len(headers)
+			headers = append(headers, h)
+		}
+		ran, cbCalled, cbHasErr = false, false, false
+		ctxSeen = map[string]string{}
+		rec := httptest.NewRecorder()
+		mw.ServeHTTP(rec, verifc04.Request(h))
+		rows = append(rows, row{Header: hidx[h], Status: rec.Code, Ran: ran, Ctx: ctxSeen, Cb: cbCalled, CbErr: cbHasErr})
+	}
+	oracle := make([]map[string]verifc04.Verdict, len(headers))
+	for i, h := range headers {
+		oracle[i] = map[string]verifc04.Verdict{}
+		for _, s := range c.Secrets {
+			oracle[i][s] = verifc04.Oracle(h, s)
+		}
+	}
+	return map[string]any{"rows": rows, "oracle": oracle, "nheaders": len(headers)}
+}
+
+// ---------------------------------------------------------------- signature gate
+
+type verifSigCase struct {
+	Strict     bool     `json:"strict"`
+	Tol        int64    `json:"tol"`        // seconds
+	Decryptors []string `json:"decryptors"` // configured fingerprints (all use the test key pair)
+	Method     string   `json:"method"`
+	Target     string   `json:"target"`
+	Body       string   `json:"body"`
+	EncBody    bool     `json:"encbody"` // send base64(ecb(key, body)) instead of body
+	XUri       string   `json:"xuri"`    // X-Request-Uri header ("" = absent)
+	NoHeader   bool     `json:"noheader"`
+	Header     string   `json:"header"`   // template with {SECRET} {SIG}
+	Plain      string   `json:"plain"`    // secret plaintext template with {TS}
+	TsOff      *int64   `json:"tsoff"`    // {TS} = now + tsoff ; nil: {TS} = tsraw
+	TsRaw      string   `json:"tsraw"`    //
+	Corrupt    bool     `json:"corrupt"`  // damage the RSA ciphertext
+	KeyB64     string   `json:"keyb64"`   // key the request announces (inside plain) -- tabulated
+	SignKey    string   `json:"signkey"`  // base64 key the client signs with
+	SignTs     string   `json:"signts"`   // template with {TS}
+	SignMeth   string   `json:"signmeth"` //
+	SignPath   string   `json:"signpath"`
+	SignQuery  string   `json:"signquery"`
+	SignBody   string   `json:"signbody"`
+	SigRaw     *string  `json:"sigraw"` // use this signature text instead of signing
+	B64Cands   []string `json:"b64cands"`
+	SecretCand []string `json:"secretcands"`
+}
+
+var (
+	verifRsaOnce sync.Once
+	verifDec     codec.RsaDecryptor
+	verifEnc     codec.RsaEncryptor
+	verifRsaErr  error
+)
+
+func verifRsa() error {
+	verifRsaOnce.Do(func() {
+		f, err := os.CreateTemp("", "verif-c04-*.pem")
+		if err != nil {
+			verifRsaErr = err
+			return
+		}
+		defer os.Remove(f.Name())
+		f.Write(priKey)
+		f.Close()
+		if verifDec, err = codec.NewRsaDecryptor(f.Name()); err != nil {
+			verifRsaErr = err
+			return
+		}
+		verifEnc, verifRsaErr = codec.NewRsaEncryptor(pubKey)
+	})
+	return verifRsaErr
+}
+
+func verifSha(body string) string { return fmt.Sprintf("%x", sha256.Sum256([]byte(body))) }
+
+type verifOpt struct {
+	Ok  bool   `json:"ok"`
+	Val string `json:"val"` // base64 of the bytes
+}
+
+func verifB64(s string) verifOpt {
+	b, err := base64.StdEncoding.DecodeString(s)
+	if err != nil {
+		return verifOpt{}
+	}
+	return verifOpt{Ok: true, Val: base64.StdEncoding.EncodeToString(b)}
+}
+
+func verifSig(raw json.RawMessage) any {
+	var c verifSigCase
+	if err := json.Unmarshal(raw, &c); err != nil {
+		return map[string]any{"error": err.Error()}
+	}
+	if err := verifRsa(); err != nil {
+		return map[string]any{"error": err.Error()}
+	}
+	now0 := time.Now().Unix()
+	ts := c.TsRaw
+	if c.TsOff != nil {
+		ts = strconv.FormatInt(now0+*c.TsOff, 10)
+	}
+	sub := func(s string) string { return strings.ReplaceAll(s, "{TS}", ts) }
+	plain := sub(c.Plain)
+	ct, err := verifEnc.Encrypt([]byte(plain))
+	if err != nil {
+		return map[string]any{"error": "encrypt: " + err.Error()}
+	}
+	if c.Corrupt {
+		ct[len(ct)/2] ^= 0x5a
+		ct[len(ct)-1] ^= 0x01
+	}
+	secret := base64.StdEncoding.EncodeToString(ct)
+	sentBody := c.Body
+	if c.EncBody {
+		k, _ := base64.StdEncoding.DecodeString(c.KeyB64)
+		if e, err := codec.EcbEncrypt(k, []byte(c.Body)); err == nil {
+			sentBody = base64.StdEncoding.EncodeToString(e)
+		}
+	}
+	if c.SignBody == "{SENT}" {
+		c.SignBody = sentBody
+	}
+	// client side signing
+	signContent := strings.Join([]string{sub(c.SignTs), c.SignMeth, c.SignPath, c.SignQuery, verifSha(c.SignBody)}, "\n")
+	var sig string
+	signKey, _ := base64.StdEncoding.DecodeString(c.SignKey)
+	if c.SigRaw != nil {
+		sig = *c.SigRaw
+	} else {
+		sig = codec.HmacBase64(signKey, signContent)
+	}
+	header := strings.ReplaceAll(strings.ReplaceAll(c.Header, "{SECRET}", secret), "{SIG}", sig)
+
+	build := func() *http.Request {
+		var rd io.Reader
+		if sentBody != "" {
+			rd = strings.NewReader(sentBody)
+		}
+		r := httptest.NewRequest(c.Method, c.Target, rd)
+		if !c.NoHeader {
+			r.Header.Set(httpx.ContentSecurity, header)
+		}
+		if c.XUri != "" {
+			r.Header.Set("X-Request-Uri", c.XUri)
+		}
+		return r
+	}
+
+	decs := map[string]codec.RsaDecryptor{}
+	for _, fp := range c.Decryptors {
+		decs[fp] = verifDec
+	}
+	ran := false
+	seenBody := ""
+	mw := ContentSecurityHandler(decs, time.Duration(c.Tol)*time.Second, c.Strict)(http.HandlerFunc(
+		func(w http.ResponseWriter, r *http.Request) {
+			ran = true
+			b, _ := io.ReadAll(r.Body)
+			seenBody = string(b)
+			w.WriteHeader(http.StatusOK)
+		}))
+	r := build()
+	rec := httptest.NewRecorder()
+	mw.ServeHTTP(rec, r)
+	now1 := time.Now().Unix()
+
+	// ---- tabulation of the idealised components, with the same libraries
+	r2 := build()
+	xok, xpath, xquery := false, "", ""
+	if c.XUri != "" {
+		if u, err := url.Parse(c.XUri); err == nil {
+			xok, xpath, xquery = true, u.Path, u.RawQuery
+		}
+	}
+	effPath, effQuery := r2.URL.Path, r2.URL.RawQuery
+	if xok {
+		effPath, effQuery = xpath, xquery
+	}
+	sentContent := strings.Join([]string{ts, r2.Method, effPath, effQuery, verifSha(sentBody)}, "\n")
+	// RSA: every candidate secret text under the (single) test key
+	type rsaRow struct {
+		Secret string   `json:"secret"`
+		Res    verifOpt `json:"res"`
+	}
+	rsaTab := []rsaRow{}
+	for _, s := range append([]string{secret}, c.SecretCand...) {
+		pt, err := verifDec.DecryptBase64(s)
+		row := rsaRow{Secret: s}
+		if err == nil {
+			row.Res = verifOpt{Ok: true, Val: base64.StdEncoding.EncodeToString(pt)}
+		}
+		rsaTab = append(rsaTab, row)
+	}
+	type b64Row struct {
+		Text string   `json:"text"`
+		Res  verifOpt `json:"res"`
+	}
+	b64Tab := []b64Row{}
+	for _, s := range append([]string{c.KeyB64, c.SignKey}, c.B64Cands...) {
+		b64Tab = append(b64Tab, b64Row{Text: s, Res: verifB64(s)})
+	}
+	type macRow struct {
+		Key     string `json:"key"` // base64 of key bytes
+		Content string `json:"content"`
+		Mac     string `json:"mac"`
+	}
+	macTab := []macRow{}
+	keys := [][]byte{}
+	for _, row := range b64Tab {
+		if row.Res.Ok {
+			k, _ := base64.StdEncoding.DecodeString(row.Res.Val)
+			keys = append(keys, k)
+		}
+	}
+	for _, k := range keys {
+		for _, ct := range []string{sentContent, signContent} {
+			macTab = append(macTab, macRow{Key: base64.StdEncoding.EncodeToString(k), Content: ct, Mac: codec.HmacBase64(k, ct)})
+		}
+	}
+	type shaRow struct {
+		Body string `json:"body"`
+		Hex  string `json:"hex"`
+	}
+	shaTab := []shaRow{{sentBody, verifSha(sentBody)}, {c.SignBody, verifSha(c.SignBody)}}
+	// would the crypto handler be able to decrypt the body?
+	decBodyOk := false
+	if k, err := base64.StdEncoding.DecodeString(c.KeyB64); err == nil && r2.ContentLength > 0 {
+		r3 := build()
+		if panicked, _ := verifdrv.Catch(func() { decBodyOk = decryptBody(k, r3) == nil }); panicked {
+			decBodyOk = false
+		}
+	}
+	return map[string]any{
+		"now0": now0, "now1": now1, "ts": ts, "header": header, "secret": secret, "sig": sig, "plain": plain,
+		"method": r2.Method, "path": r2.URL.Path, "query": r2.URL.RawQuery, "clen": r2.ContentLength,
+		"xok": xok, "xpath": xpath, "xquery": xquery, "sentbody": sentBody,
+		"rsa": rsaTab, "b64": b64Tab, "mac": macTab, "sha": shaTab, "decbody": decBodyOk,
+		"status": rec.Code, "ran": ran, "sighdr": rec.Header().Get("Signature"),
+		"seenbody": seenBody, "sentcontent": sentContent, "signcontent": signContent,
+	}
+}
+
+// TestVerifDriver dispatches on the case kind.
+func TestVerifDriver(t *testing.T) {
+	verifdrv.Run(t, func(raw json.RawMessage) any {
+		var k struct {
+			Kind string `json:"kind"`
+		}
+		if err := json.Unmarshal(raw, &k); err != nil {
+			return map[string]any{"error": err.Error()}
+		}
+		switch k.Kind {
+		case "jwt":
+			return verifJwt(raw)
+		case "sig":
+			return verifSig(raw)
+		}
+		return map[string]any{"error": "unknown kind " + k.Kind}
+	})
+}
